@@ -29,6 +29,7 @@ typedef struct {
   int kind, vt, reg;
   rv_t imm;
   MIR_type_t mt; int base, idx, scale; int64_t disp;
+  int alias; /* 0 = none, 1..PG_ZONES = alias set of the offset zone the whole access range lies in */
 } opnd_t;
 
 enum ntype { N_OP, N_IF, N_LOOP, N_SWITCH, N_CALL, N_EXT, N_RET, N_OVF, N_ALLOCA, N_IRRED, N_FPGUARD };
@@ -110,6 +111,17 @@ static node_t **pg_tail;
 static void pg_emit (node_t *n) { if (n == NULL) return; *pg_tail = n; pg_tail = &n->next; }
 static node_t *pg_op (MIR_insn_code_t c, opnd_t d, opnd_t a, opnd_t b) { node_t *n = pg_new (N_OP); if (n) { n->code = c; n->d = d; n->a = a; n->b = b; } return n; }
 
+/* Alias sets.  Every region is PG_BUF bytes and every pointer register points at the start of some region (two of them may name the same
+   region), so accesses whose offset ranges lie in different PG_BUF/PG_ZONES-byte zones never overlap whatever their bases are: such an access
+   may carry the alias set of its zone (MIR: different non-zero alias sets = assumed disjoint), the others carry none. */
+#define PG_ZONES 4
+static void pg_set_alias (pgen_t *g, opnd_t *o) {
+  int64_t lo = o->disp, hi = o->disp + (o->idx >= 0 ? 15 * o->scale : 0) + (int64_t) sem_type_size (o->mt) - 1;
+  int zs = PG_BUF / PG_ZONES;
+  o->alias = 0;
+  if (lo / zs == hi / zs && vp_chance (&g->r, 65)) o->alias = (int) (lo / zs) + 1;
+}
+
 /* a memory operand in region `base` with a freshly masked index register (emits the masking insn) */
 static opnd_t pg_mem (pgen_t *g, int vt) {
   static const MIR_type_t it[] = {MIR_T_I8, MIR_T_U8, MIR_T_I16, MIR_T_U16, MIR_T_I32, MIR_T_U32, MIR_T_I64, MIR_T_U64};
@@ -120,6 +132,7 @@ static opnd_t pg_mem (pgen_t *g, int vt) {
   if (g->have_last[vt] && g->last_mem[vt].base < nb && vp_chance (&g->r, 30)) { /* the address of an earlier access again: same type, or (integers) another width over the same bytes */
     o = g->last_mem[vt];
     if (vt == V_I && vp_chance (&g->r, 35)) { o.mt = it[vp_below (&g->r, 8)]; }
+    pg_set_alias (g, &o);
     return o;
   }
   o.base = (int) vp_below (&g->r, nb);
@@ -134,6 +147,7 @@ static opnd_t pg_mem (pgen_t *g, int vt) {
   } else
     o.disp = (int64_t) vp_below (&g->r, PG_BUF - 16);
   if (o.idx < 0) { o.scale = 1; g->last_mem[vt] = o; g->have_last[vt] = 1; } /* only index-free operands are remembered: i9 does not stay put */
+  pg_set_alias (g, &o);
   return o;
 }
 static opnd_t pg_src (pgen_t *g, int vt) {
@@ -330,6 +344,40 @@ static void pg_ctl_stmt (pgen_t *g) {
   } else pg_int_stmt (g);
 }
 
+/* One location loaded, (a block boundary,) overwritten, other locations of the same, of another and of no alias set stored, the location loaded
+   again: the orderings that memory availability, store forwarding and dead store elimination have to respect when alias sets differ. */
+static void pg_block_boundary (pgen_t *g) { /* a guarded register increment: what follows is in another block */
+  node_t *n = pg_new (N_IF); if (!n) return;
+  n->code = vp_chance (&g->r, 50) ? MIR_BT : MIR_BF; n->a = pg_rnd_reg (g, V_I); n->b = n->a;
+  pg_emit (n);
+  node_t **save = pg_tail; pg_tail = &n->body[0];
+  pg_emit (pg_op (MIR_ADD, pg_gen_reg (g), pg_rnd_reg (g, V_I), pg_imm_i (1)));
+  pg_tail = save;
+}
+static void pg_alias_chain (pgen_t *g) {
+  static const MIR_type_t it[] = {MIR_T_I8, MIR_T_U8, MIR_T_I16, MIR_T_U16, MIR_T_I32, MIR_T_U32, MIR_T_I64, MIR_T_U64};
+  int zs = PG_BUF / PG_ZONES, nb = 2 + (g->nalloca > 2 ? 2 : g->nalloca);
+  opnd_t m, r1 = pg_gen_reg (g), r2 = pg_gen_reg (g);
+  memset (&m, 0, sizeof m); m.kind = K_MEM; m.vt = V_I; m.mt = it[vp_below (&g->r, 8)]; m.base = (int) vp_below (&g->r, (uint64_t) nb); m.idx = -1; m.scale = 1;
+  int za = (int) vp_below (&g->r, PG_ZONES);
+  m.disp = za * zs + (int64_t) vp_below (&g->r, (uint64_t) zs - 8); m.alias = vp_chance (&g->r, 85) ? za + 1 : 0;
+  pg_emit (pg_op (MIR_MOV, r1, m, m));
+  if (vp_chance (&g->r, 60)) pg_block_boundary (g); /* the stores start a new block */
+  int ns = (int) vp_range (&g->r, 1, 4), own = (int) vp_below (&g->r, (uint64_t) ns);
+  for (int k = 0; k < ns; k++) {
+    opnd_t d = m;
+    if (k != own || vp_chance (&g->r, 20)) { /* another location: same zone, another zone, or anywhere without an alias set */
+      int z = vp_chance (&g->r, 35) ? za : (int) vp_below (&g->r, PG_ZONES);
+      d.mt = it[vp_below (&g->r, 8)]; d.base = (int) vp_below (&g->r, (uint64_t) nb);
+      d.disp = z * zs + (int64_t) vp_below (&g->r, (uint64_t) zs - 8); d.alias = vp_chance (&g->r, 30) ? 0 : z + 1;
+    } else if (vp_chance (&g->r, 25)) d.alias = 0;
+    pg_emit (pg_op (MIR_MOV, d, pg_rnd_reg (g, V_I), d));
+  }
+  if (vp_chance (&g->r, 60)) pg_block_boundary (g); /* the second load is in a block after the stores */
+  pg_emit (pg_op (MIR_MOV, r2, m, m));
+  pg_emit (pg_op (vp_chance (&g->r, 50) ? MIR_ADD : MIR_XOR, pg_gen_reg (g), r1, r2));
+}
+
 static void pg_stmts (pgen_t *g, node_t **where, int n) {
   node_t **save = pg_tail;
   pg_tail = where;
@@ -340,6 +388,7 @@ static void pg_stmts (pgen_t *g, node_t **where, int n) {
     if (w < 50) pg_int_stmt (g);
     else if (w < 64 && !(g->feat & PF_NO_FP)) pg_fp_stmt (g);
     else if (w < 70) { opnd_t m = pg_mem (g, V_I); pg_emit (pg_op (MIR_MOV, m, pg_rnd_reg (g, V_I), m)); } /* store */
+    else if (w < 74) pg_alias_chain (g);
     else pg_ctl_stmt (g);
   }
   g->ret_emitted = 0;
@@ -414,6 +463,7 @@ static void pg_popnd (ptxt_t *t, const opnd_t *o) {
   else if (o->kind == K_IMM) { if (o->vt == V_I) P (t, "%lld", (long long) o->imm.i); else P (t, "%.17e", o->imm.d); }
   else if (o->idx >= 0) P (t, "%s:%lld(p%d, i%d, %d)", pg_tn (o->mt), (long long) o->disp, o->base, o->idx, o->scale);
   else P (t, "%s:%lld(p%d)", pg_tn (o->mt), (long long) o->disp, o->base);
+  if (o->kind == K_MEM && o->alias) P (t, ":z%d", o->alias);
 }
 static char pg_lc[64];
 static const char *pg_lower (MIR_context_t ctx, MIR_insn_code_t c) { (void) ctx; return MIR_insn_name (ctx, c); }
